@@ -58,10 +58,21 @@ def make_label(ctx, rng, name):
 
 
 def classify(compress, code):
+    """(compressed stream, picotool's documented storage choice, whether the code fits the cartridge). "Fits" does not
+    depend on the choice: the text fits as it is, or its compressed form with the 8-byte header does (theorem
+    C04.codeFits_iff: this is exactly when the form picotool chooses fits). The form actually used is observed from the
+    written file (`observed_compressed`); `compressed` here is only the fallback for the rare text that itself begins
+    with the header's magic."""
     comp = bytes(compress.compress_code(code)) if code else b''
-    compressed = len(comp) < len(code)
-    fits = (8 + len(comp) <= AREA and len(code) < 65536) if compressed else (len(code) <= AREA)
+    compressed = len(comp) + 8 < len(code)
+    fits = len(code) <= AREA or (8 + len(comp) <= AREA and len(code) < 65536)
     return comp, compressed, fits
+
+
+def observed_compressed(area, code, fallback):
+    if code.startswith(b':c:'):
+        return fallback
+    return area[:4] == b':c:\0'
 
 
 def check_cart(ctx, res, code, regs, version, label, tag, batch, label_rows_default):
@@ -117,6 +128,7 @@ def check_cart(ctx, res, code, regs, version, label, tag, batch, label_rows_defa
     except Exception as e:
         res.fail(key, 'reading the written .p8.png raised %r' % (e,), inp)
         return
+    compressed = observed_compressed(pico[0x4300:0x8000], code1, compressed)
     exp_code = (code1 if compressed else code1 + b'\n').replace(b'\r', b' ')
     probs = []
     if bytes(rd.code) != exp_code:
@@ -174,6 +186,33 @@ def tune_compressed(ctx, rng, target):
     return None
 
 
+def tune_gain(ctx, rng, length, gain):
+    """Text of exactly `length` bytes whose compressed stream is `gain` bytes shorter (text over the compression table's
+    one-byte characters, made worse by upper-case letters, which cost two bytes each; tuned with the Lean model of
+    compress_code). None if the model is unavailable or tuning does not converge."""
+    if not ctx.model.available:
+        return None
+    alphabet = b' 0123456789abcdefghijklmnopqrstuvwxyz!#%(){}[]<>+=/*:;.,~_'
+    base = bytearray(rng.choice(alphabet) for _ in range(length))
+    base[:2] = b'--'
+    order = list(range(2, length))
+    rng.shuffle(order)
+    u = 200
+    for _ in range(14):
+        code = bytearray(base)
+        for i in order[:u]:
+            code[i] = 65 + i % 26
+        code = bytes(code)
+        out = ctx.model.run(['comp ' + hx(code)])[0]
+        ln = (len(out) - 3) // 2
+        if ln == length - gain:
+            return code
+        u += (length - gain) - ln
+        if u < 0 or u > len(order):
+            return None
+    return None
+
+
 def incompressible(rng, n):
     return bytes(rng.choice(b'ABCDEFGHIJKLMNOPQRSTUVWXYZ') for _ in range(n))
 
@@ -207,6 +246,14 @@ def run(ctx, res):
         if c is not None:
             codes.append(c)
             res.count('tuned-compressed-size')
+    # text that fits as it is and whose compressed stream is only a few bytes shorter: with the 8-byte header the compressed form
+    # is no gain (and next to the area size it would not fit at all)
+    for length, gain in ([(AREA, 1), (AREA - 3, 5), (AREA, 8)] if not ctx.thorough() else
+                         [(AREA - d, g) for d in (0, 1, 6, 7, 8, 40) for g in (1, 4, 7, 8, 9, 12)]):
+        c = tune_gain(ctx, rng, length, gain)
+        if c is not None:
+            codes.append(c)
+            res.count('tuned-small-gain')
     # very long, very repetitive code: fits the code area compressed, but its length needs more than the 16 bits of the length field
     line = rng.choice([b'x=1 y=2 z=3 w=45\n', b'a=a+1 b=b+1 --\n', b'print("hello!")\n'])
     for total in ([0xffff, 0x10000 + rng.randrange(0, 200)] if not ctx.thorough() else [0xfffe, 0xffff, 0x10000, 0x10001, 0x10054, 0x1ffff, 0x20010]):
@@ -260,7 +307,7 @@ def run(ctx, res):
             k2 = 'C04:convert:' + hx(code)[:40]
             if r1 == r3:
                 # the same root causes as the known findings of the cart-level check, seen through the file layer
-                stored_compressed = len(compress.compress_code(c1)) < len(c1)
+                stored_compressed = len(compress.compress_code(c1)) + 8 < len(c1)
                 if not stored_compressed and b'\x00' in c1 and c3 == c1.split(b'\x00')[0] + (b'\n' if not c1.split(b'\x00')[0].endswith(b'\n') else b''):
                     k2 = 'C04:raw-code-with-nul'
                 elif stored_compressed and (c1.endswith(compress.PICO8_FUTURE_CODE1) or c1.endswith(compress.PICO8_FUTURE_CODE2)
